@@ -23,6 +23,31 @@ type tunView struct {
 
 func clientView(r *tunRun) *tunView {
 	v := &tunView{r: r, eps: r.e.Eps()}
+	if r.c.TCP {
+		// writes: one record per Write call; reads: chunks of the stream, reassembled into frames
+		pfx := "tcp:" + clientIP
+		var stream []byte
+		for _, rec := range r.e.F.Records() {
+			if !strings.HasPrefix(rec.Sock, pfx) {
+				continue
+			}
+			switch rec.Kind {
+			case "tcpwrite":
+				v.tx = append(v.tx, wireEv{At: Stamp{rec.T, rec.Seq}, F: parseFrame(rec.Data)})
+			case "tcpread":
+				stream = append(stream, rec.Data...)
+				for len(stream) >= 6 {
+					tl := int(stream[4])<<8 | int(stream[5])
+					if tl < 6 || len(stream) < tl {
+						break
+					}
+					v.rx = append(v.rx, wireEv{At: Stamp{rec.T, rec.Seq}, F: parseFrame(append([]byte(nil), stream[:tl]...))})
+					stream = stream[tl:]
+				}
+			}
+		}
+		return v
+	}
 	pfx := "udp:" + clientIP
 	for _, rec := range r.e.F.Records() {
 		if !strings.HasPrefix(rec.Sock, pfx) {
@@ -360,6 +385,26 @@ func checkC03(v *tunView, m *connModel) {
 		}
 	}
 	if c.TCP {
+		// (6) every Send transmits exactly one request (sequence field 0) and returns without waiting
+		for _, q := range order {
+			if len(q.at) != 1 {
+				e.Violate("C03", "tcp-retransmission", "TCP tunnel: request id=%d was written %d times", q.call.ID, len(q.at))
+			}
+			if q.seq != 0 {
+				e.Violate("C03", "tcp-seq-not-zero", "TCP tunnel: request id=%d carries sequence number %d", q.call.ID, q.seq)
+			}
+			if q.call.Done && q.call.Ret.T-q.at[0].T > eps {
+				e.Violate("C03", "tcp-send-waits", "TCP tunnel: Send id=%d returned %v after writing its request", q.call.ID, q.call.Ret.T-q.at[0].T)
+			}
+		}
+		for _, s := range r.h.Sends {
+			if s.Done && s.OK && reqs[s.ID] == nil {
+				e.Violate("C03", "success-without-ack", "TCP tunnel: Send id=%d reported success without writing a request", s.ID)
+			}
+			if !s.Done {
+				e.Violate("C03", "send-exceeds-timeout", "TCP tunnel: Send id=%d never returned", s.ID)
+			}
+		}
 		return
 	}
 	// (2) retransmission cadence and (5) timeout bound
